@@ -192,6 +192,8 @@ Definition sk_run_mp : list ev :=
    Call "purge";
    Call "kill_workers";
    Call "pool_exit";
+   Handler "concurrent.futures.process.BrokenProcessPool";
+   RaiseE "FileSearchException";
    FinallyB;
    Call "results_stop";
    Call "info_stop";
@@ -233,6 +235,7 @@ Definition sk_execute : list ev :=
    Call "flush";
    TryE;
    Call "gzip_close";
+   Call "sync";
    Handler "UnicodeDecodeError";
    RaiseE "reraise";
    Handler "EOFError";
@@ -240,7 +243,6 @@ Definition sk_execute : list ev :=
    Handler "Exception";
    RaiseE "FileSearchException";
    TryE;
-   Call "sync";
    Ret].
 
 Definition sk_put_result : list ev :=
